@@ -1,4 +1,232 @@
-import QV.Model.Grads
+/-
+C03 — Training gradients are the exact gradients of the negative log-likelihood.
+
+"For every state type, parameter setting, dataset and assignment of measurement bases, the gradient the
+library computes for training (data-driven positive phase plus exact model-driven negative phase) equals
+the derivative, with respect to every parameter of every network, of the dataset's negative
+log-likelihood under the Born rule in each sample's own measurement basis (for mixed states up to the
+library's 1e-8 regularisation of rotated probabilities), in the same parameter order in which training
+writes gradients into the model. The positive-phase gradient of a batch is the mean of its per-sample
+gradients however the batch is ordered or grouped by basis, and every public method that returns such a
+gradient is callable and agrees."
+
+Derivatives are stated along ARBITRARY differentiable parameter curves `r : ℝ → RBM ℝ n h` with velocity `dr`
+(`RBM.CurveAt`): the loss composed with the curve has derivative `G.pair dr = Σ_k G_k · dr_k`, where `G` is the
+model's gradient record. Taking coordinate lines gives every partial derivative; linearity in `dr` gives the
+total derivative. Model: QV.Model.Grads (executed against the code by the C03 correspondence).
+-/
+import Mathlib.Analysis.SpecialFunctions.Log.Deriv
+import QV.Lemmas.Deriv
+import QV.Lemmas.GradLin
+import QV.Lemmas.Hilbert
+import QV.Lemmas.CplxGrad
+import QV.Lemmas.Grouping
+
 namespace QV.Props
-theorem C03_placeholder : True := trivial
+open QV Finset Grads
+
+variable {n h a : ℕ}
+
+/-- **C03.1a** effective energy of the BinaryRBM: the code's per-sample gradient vector is the gradient. -/
+theorem C03_energy_grad (r : ℝ → RBM ℝ n h) (dr : RBM ℝ n h) (t : ℝ) (hr : RBM.CurveAt r dr t) (v : Fin n → ℝ) :
+    HasDerivAt (fun s => (r s).effEnergy v) (((r t).effEnergyGrad1 v).pair dr) t :=
+  RBM.hasDerivAt_effEnergy r dr t hr v
+
+/-- **C03.1b** the same for the PurificationRBM (auxiliary units traced out), in the layout `[W, U, b, c, d]`. -/
+theorem C03_energy_grad_prbm (r : ℝ → PRBM ℝ n h a) (dr : PRBM ℝ n h a) (t : ℝ) (hr : PRBM.CurveAt r dr t)
+    (v : Fin n → ℝ) :
+    HasDerivAt (fun s => (r s).effEnergy v) (((r t).effEnergyGrad1 v).pair dr) t :=
+  PRBM.hasDerivAt_effEnergy r dr t hr v
+
+/-- partition function as the plain sum over the generated space (what `compute_exact_gradients` uses) -/
+noncomputable def Zsum (am : RBM ℝ n h) : ℝ := ∑ k : Fin (2 ^ n), Real.exp (-(am.effEnergy (spaceRow n k.val)))
+
+theorem Zsum_pos (am : RBM ℝ n h) : 0 < Zsum am :=
+  Finset.sum_pos (fun _ _ => Real.exp_pos _) ⟨⟨0, Nat.pos_of_ne_zero (by positivity)⟩, mem_univ _⟩
+
+/-- **C03.2** `d/dt log Z = −Σ_σ p(σ) ⟨∇E(σ), θ'⟩`, and the model's exact negative phase is that weighted average. -/
+theorem C03_logZ_grad (r : ℝ → RBM ℝ n h) (dr : RBM ℝ n h) (t : ℝ) (hr : RBM.CurveAt r dr t) :
+    HasDerivAt (fun s => Real.log (Zsum (r s))) (-((negPhaseExact (r t)).pair dr)) t := by
+  have hZ : HasDerivAt (fun s => Zsum (r s))
+      (∑ k : Fin (2 ^ n), Real.exp (-((r t).effEnergy (spaceRow n k.val)))
+          * -(((r t).effEnergyGrad1 (spaceRow n k.val)).pair dr)) t := by
+    unfold Zsum
+    exact HasDerivAt.fun_sum (fun k _ => ((RBM.hasDerivAt_effEnergy r dr t hr _).neg).exp)
+  have := hZ.log (Zsum_pos (r t)).ne'
+  refine this.congr_deriv ?_
+  have hneg : (negPhaseExact (r t)).pair dr
+      = ∑ k : Fin (2 ^ n), (Real.exp (-((r t).effEnergy (spaceRow n k.val))) / Zsum (r t))
+          * ((r t).effEnergyGrad1 (spaceRow n k.val)).pair dr := by
+    have := RBM.pair_weighted (fun k : Fin (2 ^ n) => (r t).effEnergyGrad1 (spaceRow n k.val))
+      (fun k => Real.exp (-((r t).effEnergy (spaceRow n k.val))) / Zsum (r t)) dr
+    rw [← this]
+    simp only [negPhaseExact, sumFin_eq, transc_exp, Zsum]
+  rw [hneg, Finset.sum_div, ← Finset.sum_neg_distrib]
+  refine Finset.sum_congr rfl (fun k _ => ?_)
+  ring
+
+/-- the negative log-likelihood of a dataset of computational-basis outcomes under the positive state:
+`−(1/B) Σ_b log( probability(v_b) / Z )` with the model's `probability` and `Z = Σ_σ probability(σ)`. -/
+noncomputable def nllPos (am : RBM ℝ n h) {B : ℕ} (vs : Fin B → Fin n → ℝ) : ℝ :=
+  -((∑ b, Real.log (Wave.probability am (vs b) (Zsum am))) / B)
+
+theorem nllPos_eq (am : RBM ℝ n h) {B : ℕ} (hB : 0 < B) (vs : Fin B → Fin n → ℝ) :
+    nllPos am vs = (∑ b, am.effEnergy (vs b)) / B + Real.log (Zsum am) := by
+  have hZ := Zsum_pos am
+  have hBr : (B : ℝ) ≠ 0 := by exact_mod_cast hB.ne'
+  simp only [nllPos, Wave.probability, transc_exp]
+  have : ∀ b, Real.log (Real.exp (-(am.effEnergy (vs b))) / Zsum am) = -(am.effEnergy (vs b)) - Real.log (Zsum am) := by
+    intro b; rw [Real.log_div (Real.exp_pos _).ne' hZ.ne', Real.log_exp]
+  simp only [this, Finset.sum_sub_distrib, Finset.sum_neg_distrib, Finset.sum_const, Finset.card_univ, Fintype.card_fin,
+    nsmul_eq_mul]
+  field_simp
+  ring
+
+/-- **C03.3 (positive state)** `compute_exact_gradients` (= `compute_exact_grads`) is the gradient of the NLL:
+along any differentiable parameter curve the NLL has derivative `Σ_k G_k θ'_k` with `G` the model's output. -/
+theorem C03_exact_gradient_positive (r : ℝ → RBM ℝ n h) (dr : RBM ℝ n h) (t : ℝ) (hr : RBM.CurveAt r dr t)
+    {B : ℕ} (hB : 0 < B) (vs : Fin B → Fin n → ℝ) :
+    HasDerivAt (fun s => nllPos (r s) vs) ((exactGradientsPos (r t) vs).pair dr) t := by
+  have hfun : (fun s => nllPos (r s) vs)
+      = fun s => (∑ b, (r s).effEnergy (vs b)) / B + Real.log (Zsum (r s)) := by
+    funext s; exact nllPos_eq (r s) hB vs
+  rw [hfun]
+  have h1 : HasDerivAt (fun s => (∑ b, (r s).effEnergy (vs b)) / (B : ℝ))
+      ((∑ b, ((r t).effEnergyGrad1 (vs b)).pair dr) / B) t :=
+    (HasDerivAt.fun_sum (fun b _ => RBM.hasDerivAt_effEnergy r dr t hr (vs b))).div_const _
+  refine (h1.add (C03_logZ_grad r dr t hr)).congr_deriv ?_
+  simp only [exactGradientsPos, positivePhasePos, gradientPos, RBM.pair_sub, RBM.pair_sdiv, RBM.pair_effEnergyGrad,
+    transc_ofNat]
+  ring
+
+/-- **C03.5 (positive)** the positive phase is the mean of the per-sample gradients (pairing form), hence invariant
+under any permutation of the batch. -/
+theorem C03_batch_is_sum_positive (am d : RBM ℝ n h) {B : ℕ} (vs : Fin B → Fin n → ℝ) :
+    (positivePhasePos am vs).pair d = (∑ b, (am.effEnergyGrad1 (vs b)).pair d) / B := by
+  simp only [positivePhasePos, gradientPos, RBM.pair_sdiv, RBM.pair_effEnergyGrad, transc_ofNat]
+
+theorem C03_perm_invariant_positive (am d : RBM ℝ n h) {B : ℕ} (vs : Fin B → Fin n → ℝ) (e : Equiv.Perm (Fin B)) :
+    (positivePhasePos am (fun b => vs (e b))).pair d = (positivePhasePos am vs).pair d := by
+  rw [C03_batch_is_sum_positive, C03_batch_is_sum_positive]
+  congr 1
+  exact Equiv.sum_comp e (fun b => (am.effEnergyGrad1 (vs b)).pair d)
+
+/-! ### complex wavefunction, arbitrary measurement bases -/
+
+open Unitaries
+
+/-- for an all-`Z` sample the rotated amplitude is `ψ(σ)` itself -/
+theorem cplxUpsi_allZ (am ph : RBM ℝ n h) (dict : Char → M2 ℝ) (smp : Sample n) (hz : smp.allZ = true) :
+    toC (cplxUpsi am ph dict smp) = toC (Wave.psiCplx am ph smp.vis) := by
+  have hrot : ∀ j, smp.rot j = false := by
+    intro j
+    have := List.all_eq_true.mp hz j (List.mem_finRange j)
+    simpa using this
+  rw [toC_cplxUpsi, sum_rows n (fun τ => rotC dict smp τ * toC (Wave.psiCplx am ph (visOf τ)))]
+  rw [Finset.sum_eq_single smp.σ]
+  · have hag : agreesOff n smp.rot smp.σ smp.σ = true := by
+      simp [agreesOff]
+    simp only [rotC, hag, if_true, rotCoeff, toC_prod, hrot, Bool.false_eq_true, if_false, toC_one,
+      Finset.prod_const_one, one_mul]
+    rfl
+  · intro τ _ hτ
+    have : agreesOff n smp.rot smp.σ τ = false := by
+      by_contra hcon
+      have hcon' : agreesOff n smp.rot smp.σ τ = true := by simpa using hcon
+      unfold agreesOff at hcon'
+      have hall := List.all_eq_true.mp hcon'
+      apply hτ
+      funext j
+      have := hall j (List.mem_finRange j)
+      simp [hrot j] at this
+      exact this.symm
+    simp [rotC, this]
+  · simp
+
+/-- per-sample loss `−log p̃_β(σ)` with `p̃_β(σ) = |Σ_τ Ut_τ ψ(τ)|²` the unnormalised Born probability of outcome σ in
+basis β (by `C04_inner_prod`, entry σ of the dense rotation applied to ψ). -/
+noncomputable def sampleLossCplx (am ph : RBM ℝ n h) (dict : Char → M2 ℝ) (smp : Sample n) : ℝ :=
+  -Real.log (Complex.normSq (toC (cplxUpsi am ph dict smp)))
+
+/-- **C03.3 (complex state, one sample)**: all-`Z` fast path and rotated path alike. -/
+theorem C03_sample_gradient_complex (ram rph : ℝ → RBM ℝ n h) (dam dph : RBM ℝ n h) (t : ℝ)
+    (ha : RBM.CurveAt ram dam t) (hp : RBM.CurveAt rph dph t) (dict : Char → M2 ℝ) (smp : Sample n)
+    (hU : toC (cplxUpsi (ram t) (rph t) dict smp) ≠ 0) :
+    HasDerivAt (fun s => sampleLossCplx (ram s) (rph s) dict smp)
+      ((cplxGrad1 (ram t) (rph t) dict smp).1.pair dam + (cplxGrad1 (ram t) (rph t) dict smp).2.pair dph) t := by
+  unfold sampleLossCplx
+  by_cases hz : smp.allZ = true
+  · have hfun : (fun s => -Real.log (Complex.normSq (toC (cplxUpsi (ram s) (rph s) dict smp))))
+        = fun s => (ram s).effEnergy smp.vis := by
+      funext s
+      rw [cplxUpsi_allZ _ _ _ _ hz, toC_psiCplx, Complex.normSq_eq_norm_sq, Complex.norm_exp]
+      simp only [Complex.add_re, Complex.ofReal_re, Complex.mul_re, Complex.I_re, Complex.I_im, Complex.ofReal_im,
+        mul_zero, sub_zero, mul_one, add_zero]
+      rw [← Real.exp_nat_mul, Real.log_exp]
+      push_cast; ring
+    rw [hfun]
+    refine (RBM.hasDerivAt_effEnergy ram dam t ha smp.vis).congr_deriv ?_
+    simp [cplxGrad1, hz, RBM.pair_zero]
+  · exact hasDerivAt_sampleLoss_rot ram rph dam dph t ha hp dict smp (by simpa using hz) hU
+
+/-- grouped accumulation = plain sum over the batch (pairing form) -/
+theorem pair_gradientCplx (am ph d : RBM ℝ n h) (dict : Char → M2 ℝ) (D : List (Sample n)) :
+    (gradientCplx am ph dict D).1.pair d = (D.map (fun s => (cplxGrad1 am ph dict s).1.pair d)).sum
+    ∧ (gradientCplx am ph dict D).2.pair d = (D.map (fun s => (cplxGrad1 am ph dict s).2.pair d)).sum :=
+  ⟨pair_grouped D (fun s => s.basis) (fun s => (cplxGrad1 am ph dict s).1) d,
+   pair_grouped D (fun s => s.basis) (fun s => (cplxGrad1 am ph dict s).2) d⟩
+
+/-- the dataset NLL of the complex state under the Born rule: `(1/N) Σ_s −log p̃_{β_s}(σ_s) + log Z`. -/
+noncomputable def nllCplx (am ph : RBM ℝ n h) (dict : Char → M2 ℝ) (D : List (Sample n)) : ℝ :=
+  (D.map (fun smp => sampleLossCplx am ph dict smp)).sum / D.length + Real.log (Zsum am)
+
+theorem hasDerivAt_list_sum {ι : Type} (l : List ι) (f : ι → ℝ → ℝ) (f' : ι → ℝ) (t : ℝ)
+    (hf : ∀ x ∈ l, HasDerivAt (f x) (f' x) t) :
+    HasDerivAt (fun s => (l.map (fun x => f x s)).sum) ((l.map f').sum) t := by
+  induction l with
+  | nil => simpa using hasDerivAt_const t (0 : ℝ)
+  | cons x xs ih =>
+    simp only [List.map_cons, List.sum_cons]
+    exact (hf x List.mem_cons_self).add (ih (fun y hy => hf y (List.mem_cons_of_mem _ hy)))
+
+/-- **C03.3 (complex state)** `compute_exact_gradients(samples, space, bases)` — grouped by unique basis, all-`Z` rows
+through the fast path — is the gradient of the dataset NLL w.r.t. every parameter of both networks, whenever every
+sample has non-zero model probability in its basis (i.e. the NLL is finite). -/
+theorem C03_exact_gradient_complex (ram rph : ℝ → RBM ℝ n h) (dam dph : RBM ℝ n h) (t : ℝ)
+    (ha : RBM.CurveAt ram dam t) (hp : RBM.CurveAt rph dph t) (dict : Char → M2 ℝ) (D : List (Sample n))
+    (hU : ∀ smp ∈ D, toC (cplxUpsi (ram t) (rph t) dict smp) ≠ 0) :
+    HasDerivAt (fun s => nllCplx (ram s) (rph s) dict D)
+      ((exactGradientsCplx (ram t) (rph t) dict D).1.pair dam
+        + (exactGradientsCplx (ram t) (rph t) dict D).2.pair dph) t := by
+  unfold nllCplx
+  have h1 := (hasDerivAt_list_sum D (fun smp s => sampleLossCplx (ram s) (rph s) dict smp) _ t
+    (fun smp hs => C03_sample_gradient_complex ram rph dam dph t ha hp dict smp (hU smp hs))).div_const (D.length : ℝ)
+  refine (h1.add (C03_logZ_grad ram dam t ha)).congr_deriv ?_
+  simp only [exactGradientsCplx, positivePhaseCplx, RBM.pair_sub, RBM.pair_sdiv, transc_ofNat,
+    (pair_gradientCplx _ _ _ _ _).1, (pair_gradientCplx _ _ _ _ _).2]
+  rw [List.sum_map_add]
+  ring
+
+/-- **C03.5** the positive phase of ANY batch is the mean of the per-sample gradients, whatever the grouping by
+basis (pairing form); hence invariant under permutation of the batch. -/
+theorem C03_batch_is_sum_complex (am ph d : RBM ℝ n h) (dict : Char → M2 ℝ) (D : List (Sample n)) :
+    (positivePhaseCplx am ph dict D).1.pair d = (D.map (fun s => (cplxGrad1 am ph dict s).1.pair d)).sum / D.length
+    ∧ (positivePhaseCplx am ph dict D).2.pair d = (D.map (fun s => (cplxGrad1 am ph dict s).2.pair d)).sum / D.length := by
+  simp only [positivePhaseCplx, RBM.pair_sdiv, transc_ofNat, (pair_gradientCplx _ _ _ _ _).1,
+    (pair_gradientCplx _ _ _ _ _).2, and_self]
+
+theorem C03_perm_invariant_complex (am ph d : RBM ℝ n h) (dict : Char → M2 ℝ) (D D' : List (Sample n))
+    (hperm : D.Perm D') :
+    (positivePhaseCplx am ph dict D).1.pair d = (positivePhaseCplx am ph dict D').1.pair d
+    ∧ (positivePhaseCplx am ph dict D).2.pair d = (positivePhaseCplx am ph dict D').2.pair d := by
+  rw [(C03_batch_is_sum_complex am ph d dict D).1, (C03_batch_is_sum_complex am ph d dict D).2,
+    (C03_batch_is_sum_complex am ph d dict D').1, (C03_batch_is_sum_complex am ph d dict D').2, hperm.length_eq]
+  exact ⟨by rw [(hperm.map _).sum_eq], by rw [(hperm.map _).sum_eq]⟩
+
+/-- the per-sample rotated amplitude of the gradient model IS the model of `rotate_psi_inner_prod` (C04), hence by
+`C04_inner_prod` entry σ of the dense basis rotation applied to ψ: the loss above is the Born-rule loss. -/
+theorem C03_upsi_is_rotated_amplitude (am ph : RBM ℝ n h) (dict : Char → M2 ℝ) (smp : Sample n) :
+    cplxUpsi am ph dict smp
+      = rotatePsiInnerProd n (fun j => dict (smp.letter j)) smp.rot (fun τ => Wave.psiCplx am ph (visOf τ)) smp.σ := rfl
+
 end QV.Props
